@@ -32,6 +32,7 @@ static char* W_base; static long W_off[32]; static long W_end;
 static bool W_overflow;
 
 void __CPROVER_file_local_polyseed_c_write_str(char** pos, const char* str) {
+    DEP_TICK();
     if (W_calls == 0) W_base = *pos;
     long off = *pos - W_base;
     int k = W_calls < 32 ? W_calls : 31;
